@@ -3,12 +3,14 @@ use crate::report::{Cfg, Outcome};
 pub mod c01;
 pub mod c26;
 pub mod c28;
+pub mod c29;
 
 pub fn dispatch(cfg: &Cfg) -> Option<Outcome> {
     Some(match cfg.prop.as_str() {
         "C01" => c01::run(cfg),
         "C26" => c26::run(cfg),
         "C28" => c28::run(cfg),
+        "C29" => c29::run(cfg),
         _ => return None,
     })
 }
